@@ -18,6 +18,14 @@ def _model(spec):
         rho_ = np.zeros((spec["N"], spec["N"]), dtype=np.complex128)
         rho_[spec["state"], spec["state"]] = 1.0      # pure active state: the coherences that build up carry the coupling signs
         return m, rho_, rng
+    if spec.get("builtin"):
+        # a built-in model with three states that exchange their character along a LONG path (Subotnik model X): the states
+        # handed from step to step have to be continued from the PREVIOUS step all the way
+        import mudslide
+        m = mudslide.models.scattering_models[spec["builtin"]](**spec.get("kwargs", {}))
+        rho_ = np.zeros((spec["N"], spec["N"]), dtype=np.complex128)
+        rho_[spec["state"], spec["state"]] = 1.0
+        return m, rho_, rng
     m = SynthModel(rng, spec["N"], spec["n"], scale=0.03, gap=0.02, quad=0.004, mass=10 ** rng.uniform(2.5, 3.5, size=spec["n"]),
                    representation=spec.get("representation", "adiabatic"))
     rho0 = random_rho(rng, spec["N"], "pure")
@@ -131,7 +139,7 @@ def oracle_order(args):
         return False, {"problems": bad}, {"ratio": "about 4 (>= 3)"}, bad[0]
     # only the ADIABATIC surfaces have that cusp: in the diabatic representation forces and Hamiltonian are the smooth V, dV
     # themselves whatever the spacing of the eigenvalues of V
-    if min_gap is not None and min_gap < 3e-3 and not spec.get("strict") and spec.get("representation", "adiabatic") == "adiabatic":
+    if min_gap is not None and min_gap < 3e-3 and not (spec.get("strict") or spec.get("judge")) and spec.get("representation", "adiabatic") == "adiabatic":
         return True, {"not_judged": "the path passes a near-degeneracy (smallest level spacing %.3g): not a smooth model at these steps" % min_gap,
                       "rho": {"ratio": 4.0, "ratios": [4.0, 4.0], "differences": [0.0, 0.0, 0.0]}}, {"ratio": "about 4 (>= 3)"}, "not judged"
     for name, idx in (("x", 0), ("p", 1), ("rho", 2)):
@@ -168,6 +176,37 @@ def oracle_order(args):
                        % (cross, est_this, est_other))
             return False, out, {"ratio": "about 4 (>= 3)", "cross": "<= 5 x (own estimates)"}, \
                 "second-order convergence, but not to the solution the other integrator converges to: " + bad[0]
+    if not bad and spec.get("exact"):
+        # ... and to the EXACT solution itself: x' = p/m, p' = -<phi_s|dV|phi_s>, i c' = V(x) c integrated independently (classical RK4,
+        # step dt/16, in the DIABATIC basis: no eigenvector is carried from step to step, so no phase convention enters); compared are
+        # position, momentum and the magnitudes |rho_ij| in the adiabatic basis at the end point (they do not depend on eigenvector signs)
+        model, _rho, _r = _model(spec)
+        s_, mass = int(spec["state"]), float(np.asarray(model.mass)[0])
+
+        def rhs(y):
+            x = np.array([y[0].real])
+            Vx, dVx = np.asarray(model.V(x)), np.asarray(model.dV(x))[0]
+            _w, C = np.linalg.eigh(Vx)
+            f = -float(C[:, s_] @ dVx @ C[:, s_])
+            return np.concatenate([[y[1].real / mass, f], -1j * (Vx @ y[2:])])
+        _w0, C0 = np.linalg.eigh(np.asarray(model.V(x_shared)))
+        y = np.concatenate([[x_shared[0], p_shared[0]], C0[:, s_]]).astype(np.complex128)
+        h = spec["dt"] / 16.0
+        for _ in range(int(spec["steps"]) * 16):
+            k1 = rhs(y); k2 = rhs(y + 0.5 * h * k1); k3 = rhs(y + 0.5 * h * k2); k4 = rhs(y + h * k3)
+            y = y + h / 6.0 * (k1 + 2 * k2 + 2 * k3 + k4)
+        _w1, C1 = np.linalg.eigh(np.asarray(model.V(np.array([y[0].real]))))
+        ca = C1.T @ y[2:]
+        rho_exact = np.abs(np.outer(ca, ca.conj()))
+        fine = res[3]
+        est = {nm: out[nm]["differences"][2] for nm in ("x", "p", "rho")}
+        dev = {"x": abs(fine[0][0] - y[0].real), "p": abs(fine[1][0] - y[1].real), "rho": float(np.max(np.abs(np.abs(fine[2]) - rho_exact)))}
+        out["exact"] = {"deviation_of_the_finest_run": dev, "its_own_last_halving_differences": est}
+        for nm in ("x", "p", "rho"):
+            if dev[nm] > 5.0 * est[nm] + 1e-7 * (1.0 + abs(y[1].real) if nm == "p" else 1.0):
+                return False, out, {"deviation from the exact solution": "<= 5 x (last step-halving difference)"}, \
+                    "second-order convergence, but NOT to the exact solution: %s at dt/8 is %.3g away from the independently integrated " \
+                    "solution while halving the step changed it by %.3g only" % (nm if nm != "rho" else "|rho|", dev[nm], est[nm])
     return not bad, out, {"ratio": "about 4 (>= 3)"}, "error does not shrink fourfold when dt is halved: " + ", ".join(bad)
 
 
@@ -297,6 +336,10 @@ def run(ctx):
         if i % 31 == 8:
             spec = dict(builtin="shin-metiu", N=3, n=1, model_seed=int(rng.integers(1, 10 ** 6)), x0=[float(rng.uniform(-6.8, -6.4))],
                         p0=[float(rng.uniform(12.0, 16.0))], state=0, dt=4.0, steps=60, strict=True, fine_bound=2e-5, integ=["exp", "linear-rk4"][(i // 31) % 2], max_edt=0.5)
+        if i % 31 == 6:
+            spec = dict(builtin="modelx", N=3, n=1, model_seed=1, x0=[float(rng.uniform(-12.5, -11.5))], p0=[float(rng.uniform(28.0, 32.0))], state=0,
+                        dt=4.0, steps=300, judge=True, exact=True, integ=["exp", "linear-rk4"][(i // 31) % 2], max_edt=0.5)
+            ctx.count("richardson_long_path_through_exchanging_states")
         ok, obs, req, text = oracle_order(spec)
         ctx.case(("order", spec["integ"], N, n, spec.get("representation", "adiabatic")))
         ctx.count("richardson_triples")
